@@ -1056,3 +1056,26 @@ CONTRACTS[CI + 'CliffordGate.backward#random_state'] = dict(
     requires=_rnd_local_req,
     ensures=_inv_obj_post, modifies=['obj.gs', 'obj.ps'], returns='=obj',
 )
+
+# ------------------------------------------------------------------ C15 / C20: the casts between the operator classes keep string, phase (and coefficient 1)
+_one_row = ['rows(result.gs) == 1', 'cols(result.gs) == len(self.g)', 'len(result.ps) == 1',
+            'forall(c_, 0, len(self.g), result.gs[0][c_] == self.g[c_])', 'same(result.gs[0], self.g)', 'result.ps[0] == self.p']
+CONTRACTS[PA + 'Pauli.as_list'] = dict(
+    params=[('self', PAULI)], requires=[], ensures=_one_row, modifies=[], returns=dict(PLIST, exact=False))
+CONTRACTS[PA + 'Pauli.as_monomial'] = dict(
+    params=[('self', PAULI)], requires=[],
+    ensures=['same(result.g, self.g)', 'len(result.g) == len(self.g)', 'result.p == self.p', 'result.c == cplx_one()'], modifies=[], returns=PMONO)
+CONTRACTS[PA + 'Pauli.as_polynomial'] = dict(
+    params=[('self', PAULI)], requires=[],
+    ensures=_one_row + ['len(result.cs) == 1', 'result.cs[0] == cplx_one()'], modifies=[], returns=POLY)
+CONTRACTS[PA + 'PauliList.as_polynomial'] = dict(
+    params=[('self', dict(PLIST, exact=True))], requires=['len(self.ps) == rows(self.gs)'],
+    ensures=['same_loc(result.gs, self.gs)', 'same_loc(result.ps, self.ps)', 'len(result.cs) == len(self.ps)',
+             'forall(k, 0, len(self.ps), result.cs[k] == cplx_one())'], modifies=[], returns=POLY)
+# the token row of a single operator (C20): what pauli_tokenize says about the one-row list
+CONTRACTS[PA + 'Pauli.tokenize'] = dict(
+    params=[('self', PAULI)], requires=['len(self.g) % 2 == 0', 'bits1(self.g)', '0 <= self.p <= 3'],
+    ensures=['rows(result) == 1', 'cols(result) == len(self.g) // 2 + 1',
+             'forall(i, 0, len(self.g) // 2, result[0][i] == TOKEN(self.g[2 * i], self.g[2 * i + 1]))',
+             'result[0][len(self.g) // 2] == PHASE_TOKEN(self.p)'],
+    modifies=[], returns='int2 fresh')
